@@ -299,6 +299,8 @@ type model struct {
 	// reported at that call (minimal witness); the path is not extended, so one defect does not cascade
 	// into a violation at every later call.
 	diverged bool
+	issued   map[string][]challenge // every challenge the server handed out on this path, per address
+	revived  string                 // address whose expired challenge the last Data call handed out again
 	pre      snapshot
 	post     snapshot
 	exp      expectation
@@ -317,6 +319,8 @@ func (m *model) Init() {
 	m.ref = newRef(m.thorough)
 	m.capture = false
 	m.diverged = false
+	m.issued = map[string][]challenge{}
+	m.revived = ""
 }
 
 // Enabled lists the calls a client can make in the current state.
@@ -456,7 +460,16 @@ func (m *model) Apply(ev string) string {
 		rp = m.fx.send(rq)
 		vsched.Settle()
 		if kind == "Data" && rp.class == "ok" {
-			m.ref.chal[strings.Split(ev, ":")[1]] = challenge{blob: rp.blob, epoch: m.ref.epoch}
+			who := strings.Split(ev, ":")[1]
+			// a challenge that was issued in an earlier clock epoch has expired; if the server hands the same bytes out
+			// again, every request once signed for it is valid again
+			for _, old := range m.issued[who] {
+				if old.epoch != m.ref.epoch && bytes.Equal(old.blob, rp.blob) {
+					m.revived = who
+				}
+			}
+			m.issued[who] = append(m.issued[who], challenge{blob: rp.blob, epoch: m.ref.epoch})
+			m.ref.chal[who] = challenge{blob: rp.blob, epoch: m.ref.epoch}
 		}
 	}
 	m.rp = rp
@@ -562,6 +575,11 @@ func (m *model) Check(ev, res string) []common.Violation {
 			Witness: map[string]any{"call": ev, "answer": rp.class, "error": rp.errText, "reference": e.class, "before": m.pre.stateOf(), "after": m.post.stateOf()}})
 	}
 	m.counters["calls"]++
+	if m.revived != "" {
+		add("C16.unexpired-challenge", "C16.expired-challenge-issued-again/Data",
+			fmt.Sprintf("%s handed out, for %s, the very challenge it had issued before the clock passed its life time: requests signed for the expired challenge are valid again", ev, m.revived))
+		m.revived = ""
+	}
 	m.counters["answer/"+rpc+"="+rp.class]++
 	if rpc == "Clock" {
 		return nil
